@@ -2,6 +2,7 @@ package server
 
 import (
 	"encoding/base64"
+	"errors"
 	"sync"
 	"sync/atomic"
 	"time"
@@ -13,6 +14,8 @@ import (
 )
 
 const defaultUploadInterval = 1 * time.Minute
+
+var ErrNoBandwidth = errors.New("user has a non-positive bandwidth setting")
 
 // userPanel is used to authenticate new users and book keep active users
 type userPanel struct {
@@ -71,6 +74,11 @@ func (panel *userPanel) GetUser(UID []byte) (*ActiveUser, error) {
 	upRate, downRate, err := panel.Manager.AuthenticateUser(UID)
 	if err != nil {
 		return nil, err
+	}
+	if upRate <= 0 || downRate <= 0 {
+		// no token bucket can be built for such a rate (ratelimit panics); a user who may
+		// not transfer anything in one direction is not let in
+		return nil, ErrNoBandwidth
 	}
 	valve := mux.MakeValve(upRate, downRate)
 	user := &ActiveUser{
